@@ -44,6 +44,9 @@ type C14Case struct {
 	// the handler of every node-down notification it gets. While b@h2 is gone for good (stop, crash) a
 	// renewed subscription either fails or is itself followed by a notification
 	Resub string `json:"resub,omitempty"` // "" | monitor | link
+	// MapName: a@h1 reaches b@h2 over a static route with an atom mapping: the registered name
+	// "target" of b is known as "tgt" on a (requests carry the mapped name, notifications are mapped back)
+	MapName bool `json:"map_name,omitempty"`
 }
 
 type c14 struct{}
@@ -93,6 +96,7 @@ func (c14) Generate(r *simkit.Rand, tier string) any {
 	if r.Chance(0.4) {
 		c.Resub = simkit.Pick(r, "monitor", "link")
 	}
+	c.MapName = r.Chance(0.3)
 	if r.Chance(0.4) {
 		for _, what := range []string{"pid", "name", "alias", "event"} {
 			if r.Chance(0.5) {
@@ -129,6 +133,11 @@ func (c14) Shrink(cc any) []any {
 	if c.Resub != "" {
 		n := cloneJSON(c)
 		n.Resub = ""
+		out = append(out, n)
+	}
+	if c.MapName {
+		n := cloneJSON(c)
+		n.MapName = false
 		out = append(out, n)
 	}
 	if c.PreTerm {
@@ -172,10 +181,26 @@ func (c14) Run(e *simkit.Env, cc any) {
 	if c.Segment {
 		sn.Segment = 1
 	}
-	a := simkit.StartNetNode(e, sn, simkit.NetNodeOptions{Name: "a@h1", Cookie: "k", PoolSize: c.Pool})
+	a := simkit.StartNetNode(e, sn, simkit.NetNodeOptions{Name: "a@h1", Cookie: "k", PoolSize: c.Pool, Mod: func(o *gen.NodeOptions) {
+		if c.MapName {
+			// the same mapping whichever side dials
+			for i := range o.Network.Acceptors {
+				o.Network.Acceptors[i].AtomMapping = map[gen.Atom]gen.Atom{"tgt": "target"}
+			}
+		}
+	}})
 	b := simkit.StartNetNode(e, sn, simkit.NetNodeOptions{Name: "b@h2", Cookie: "k", PoolSize: c.Pool})
 	if a == nil || b == nil {
 		return
+	}
+	tName := gen.Atom("target") // the name of the target as the processes of a know it
+	if c.MapName {
+		tName = "tgt"
+		if err := a.Network().AddRoute("b@h2", gen.NetworkRoute{Route: gen.Route{Host: "h2", Port: 15000}, AtomMapping: map[gen.Atom]gen.Atom{"tgt": "target"}}, 100); err != nil {
+			e.Fail("C14/unexpected-failure", "AddRoute with an atom mapping: %v", err)
+			return
+		}
+		e.Probe("atom-mapping-on-the-connection")
 	}
 	var b2 gen.Node
 	defer func() {
@@ -485,9 +510,9 @@ func (c14) Run(e *simkit.Env, cc any) {
 		case gen.MessageDownPID:
 			return c14Note{false, "pid", c04Reason(v.Reason), 0}, v.PID == tPID
 		case gen.MessageExitProcessID:
-			return c14Note{true, "name", c04Reason(v.Reason), 0}, true
+			return c14Note{true, "name", c04Reason(v.Reason), 0}, v.ProcessID.Name == tName
 		case gen.MessageDownProcessID:
-			return c14Note{false, "name", c04Reason(v.Reason), 0}, true
+			return c14Note{false, "name", c04Reason(v.Reason), 0}, v.ProcessID.Name == tName
 		case gen.MessageExitAlias:
 			return c14Note{true, "alias", c04Reason(v.Reason), 0}, v.Alias == tAlias
 		case gen.MessageDownAlias:
@@ -516,7 +541,7 @@ func (c14) Run(e *simkit.Env, cc any) {
 				case "pid":
 					target = tPID
 				case "name":
-					target = gen.ProcessID{Name: "target", Node: "b@h2"}
+					target = gen.ProcessID{Name: tName, Node: "b@h2"}
 				case "alias":
 					target = tAlias
 				}
@@ -614,7 +639,7 @@ func (c14) Run(e *simkit.Env, cc any) {
 			if c.InFlight == "call" {
 				_, err = p.CallWithTimeout(tPID, "never-answered", 5)
 			} else {
-				err = p.SendImportant(gen.ProcessID{Name: "target", Node: "b@h2"}, "important")
+				err = p.SendImportant(gen.ProcessID{Name: tName, Node: "b@h2"}, "important")
 			}
 			mu.Lock()
 			fl = flight{err: err, took: e.Now() - t0, done: true}
@@ -804,8 +829,8 @@ func (c14) Run(e *simkit.Env, cc any) {
 		o2.Message = func(p *Probe, from gen.PID, m any) error {
 			if m == "relate" {
 				_, o2errs["link/event"] = p.LinkEvent(gen.Event{Name: "tev", Node: "b@h2"})
-				o2errs["monitor/name"] = p.MonitorProcessID(gen.ProcessID{Name: "target", Node: "b@h2"})
-				o2errs["link/name"] = p.LinkProcessID(gen.ProcessID{Name: "target", Node: "b@h2"})
+				o2errs["monitor/name"] = p.MonitorProcessID(gen.ProcessID{Name: tName, Node: "b@h2"})
+				o2errs["link/name"] = p.LinkProcessID(gen.ProcessID{Name: tName, Node: "b@h2"})
 				close(o2ready)
 				return nil
 			}
